@@ -44,12 +44,14 @@ var (
 	TypeIC  = reflect.TypeOf((*IC)(nil)).Elem()
 	TypeIAB = reflect.TypeOf((*IAB)(nil)).Elem()
 	TypeAny = reflect.TypeOf((*any)(nil)).Elem()
+	TypeIH  = reflect.TypeOf((*IHidden)(nil)).Elem()
 )
 
 // PaletteFieldTypes lists the field types a literal-tag holder can use for component points.
 func PaletteFieldTypes() []reflect.Type {
 	ts := []reflect.Type{TypeIA, TypeIB, TypeIC, TypeIAB, TypeAny,
-		reflect.SliceOf(TypeIA), reflect.SliceOf(TypeIB), reflect.SliceOf(TypeIC), reflect.SliceOf(TypeAny)}
+		reflect.SliceOf(TypeIA), reflect.SliceOf(TypeIB), reflect.SliceOf(TypeIC), reflect.SliceOf(TypeAny),
+		TypeIH, reflect.SliceOf(TypeIH), reflect.TypeOf(&LeanH{})}
 	for _, ti := range Palette {
 		pt := reflect.TypeOf(ti.New())
 		ts = append(ts, pt)
